@@ -11,6 +11,7 @@ Theorem C18_lossless : forall (l : list action) (p : pipe),
   returned p ++ carry_bytes p ++ queued p = script_written l /\
   (eof p = true -> returned p = script_written l /\ closed p = true).
 Proof. exact c18_lossless. Qed.
+Print Assumptions C18_lossless.
 
 Theorem C18_read_bounded_progress : forall (l : list action) (p p' : pipe) (o : nat) (intr : bool),
   run read_early writer_copies pipe_init l = Some p ->
@@ -19,29 +20,35 @@ Theorem C18_read_bounded_progress : forall (l : list action) (p p' : pipe) (o : 
   ((0 < o)%nat -> 0 < lastn p' \/ eof p' = true \/ intr = true \/
                   queue p' = tl (queue p) /\ (queue p <> [] \/ closed p = true)).
 Proof. exact c18_read_bounded_progress. Qed.
+Print Assumptions C18_read_bounded_progress.
 
 Theorem C18_eof_after_close : forall (l : list action) (p : pipe) (o : nat),
   run read_early writer_copies pipe_init l = Some p ->
   closed p = true -> queue p = [] -> carry_bytes p = [] -> (0 < o)%nat ->
   exists p', step read_early writer_copies p (ARead o false) = Some p' /\ eof p' = true /\ lastn p' = 0.
 Proof. exact c18_eof_after_close. Qed.
+Print Assumptions C18_eof_after_close.
 
 Theorem C18_no_alias : forall (l : list action) (p : pipe),
   run read_early writer_copies pipe_init l = Some p ->
   exists q, run read_early writer_copies pipe_init (erase_mutate l) = Some q /\
             returned p = returned q /\ eof p = eof q /\ lastn p = lastn q.
 Proof. exact c18_no_alias. Qed.
+Print Assumptions C18_no_alias.
 
 Theorem C18_interrupt_no_loss : forall (b : bytes) (o : nat) av buf' out c,
   read read_early (Some b) o av true = RRet buf' out EInterrupted c ->
   b = [] /\ out = [] /\ buf' = Some [] /\ c = false.
 Proof. exact c18_interrupt_no_loss. Qed.
+Print Assumptions C18_interrupt_no_loss.
 
 (** Regression witnesses (about fixed definitions, independent of the current source). *)
 Theorem C18_lossless_refuted_pinned :
   exists l p, run early_pinned true pipe_init l = Some p /\ ~ is_prefix (returned p) (script_written l).
 Proof. exact lossless_refuted_pinned. Qed.
+Print Assumptions C18_lossless_refuted_pinned.
 
 Theorem C18_no_alias_needs_copy :
   exists l p, run (fun o n _ => n =? o) false pipe_init l = Some p /\ returned p <> script_written l.
 Proof. exact no_alias_needs_copy. Qed.
+Print Assumptions C18_no_alias_needs_copy.
